@@ -26,10 +26,11 @@ CLIENT = {"RegisterRouter", "HandOffWait", "HandOff", "Dequeue", "ClosedReply", 
 PUPPET = {"HStart", "HRelease", "HReturn", "HReply", "HFail", "EnvStop", "EnvStopped", "EnvStart"}
 SERVER = set()
 DRIVER = {"CtxEnd"}
-KEEP_FIELDS = {"ev", "msg", "node", "who", "ok", "err", "found", "why", "streaming", "routers", "out", "seq"}
+KEEP_FIELDS = {"ev", "msg", "node", "who", "ok", "err", "found", "why", "streaming", "routers", "out", "seq", "foreign", "multi",
+               "own"}
 
 TCFG = ("SPECIFICATION TSpec\nCONSTANTS\n  Reqs <- TReqs\n  Kind <- TKind\n  SendBuf <- TSendBuf\n  MaxEpoch <- TMaxEpoch\n"
-        "  MaxCrash = 1000\n  CanCancel <- TCancel\n  WithClose = TRUE\n  ChanCap <- TChanCap\n  MaxItems = 1000\n"
+        "  CapOf <- TCapOf\n  Multi <- TMulti\n  MaxCrash = 1000\n  CanCancel <- TCancel\n  WithClose = TRUE\n  ChanCap <- TChanCap\n  MaxItems = 1000\n"
         "  Window = 100000\n  Foreign = FALSE\n  Abandons = TRUE\n  Devs = {}\nINVARIANTS NotDone TraceInv\nCHECK_DEADLOCK FALSE\n")
 RE_STEP = re.compile(r'<<"STEP", (\d+)>>')
 
@@ -73,9 +74,8 @@ def project(events, node):
                 streaming[m] = bool(e.get("streaming"))
     if not reqs:
         return None, "no request"
-    if nnodes > 1 and any(streaming.get(m) and sizeof.get(m, 1) > 1 for m in reqs):
-        # the reply channel of such a call is shared with other nodes (Foreign): not projected yet
-        return None, "a streaming call over several nodes"
+    # a streaming call over several nodes: its reply channel (one slot per node) is shared with the other nodes
+    smulti = {m for m in reqs if streaming.get(m) and sizeof.get(m, 1) > 1}
     kinds = []
     for m in reqs:
         if streaming.get(m):
@@ -86,13 +86,27 @@ def project(events, node):
             kinds.append("two")
     lines = []
     nstreams = 0
+    ownmark = set()
     for e in events:
         ev = e["ev"]
         if ev in CLIENT and (e.get("node") == node or (ev in ("CallEnd", "CallConfirm") and e.get("node") == 0)):
-            if ev == "CallConfirm" and nnodes > 1 and sizeof.get(e.get("msg"), 1) > 1:
-                # a multicast over several nodes logs one confirmation per node without naming it; its calls
-                # are not projected
-                return None, "a send-waiting multicast over several nodes"
+            if ev == "CallConfirm":
+                # (a multicast over several nodes logs one confirmation per node without naming it)
+                e = dict(e, multi=sizeof.get(e.get("msg"), 1) > 1)
+            if ev == "CallRecv":
+                e = dict(e, foreign=False)
+        elif ev == "Route" and e.get("msg") in smulti and e.get("found"):
+            # another node's channel hands a response to the shared reply channel
+            k = (e.get("node"), e["msg"])
+            own = k in ownmark and e.get("why") == "resp"
+            e = {"ev": "FRoute", "msg": e["msg"], "node": node, "seq": e.get("seq", 0), "own": own,
+                 "err": True if e.get("why") == "down" else bool(e.get("err"))}
+            ev = "FRoute"
+        elif ev in ("ClosedReply", "CtxReply") and e.get("msg") in smulti:
+            ownmark.add((e.get("node"), e["msg"]))
+            continue
+        elif ev == "CallRecv" and e.get("msg") in smulti:
+            e = dict(e, foreign=True, node=node)
         elif ev in PUPPET and e.get("node") == node:
             if ev in ("HStart", "HRelease", "HReturn", "HReply", "HFail"):
                 m = tok2msg.get(e.get("tok"))
@@ -130,16 +144,24 @@ def project(events, node):
         # the node's server was not running when the manager was created
         lines = [{"ev": "EnvStop", "msg": 0, "node": node}, {"ev": "EnvStopped", "msg": 0, "node": node}] + lines
     hdr = {"ev": "Hdr", "reqs": reqs, "kinds": kinds, "sendbuf": int(info.get("sendbuf", 0)), "maxepoch": nstreams + 2,
-           "chancap": 1, "node": node}
+           "chancap": 1, "node": node, "caps": [sizeof.get(m, 1) if streaming.get(m) else 1 for m in reqs],
+           "multi": [m in smulti for m in reqs]}
     return [hdr] + lines, ""
 
 
-def validate_one(lines, work, name):
+def validate_one(lines, work, name, timeout=600, undecided_ok=False):
     path = os.path.join(work, name + ".ndjson")
     with open(path, "w") as f:
         for x in lines:
             f.write(json.dumps(x, separators=(",", ":")) + "\n")
-    out, gen, dist, rc = tlc("ChannelTrace", TCFG, work, env={"TRACE": path}, workers=1, timeout=600)
+    try:
+        out, gen, dist, rc = tlc("ChannelTrace", TCFG, work, env={"TRACE": path}, workers=1, timeout=timeout)
+    except Infra:
+        if undecided_ok:
+            if os.environ.get("VERIF_KEEP"):
+                shutil.copy(path, "/tmp/chan-undecided-%s.ndjson" % name)
+            return None, 0, 0, "not decided within %d s" % timeout
+        raise
     steps = [int(x) for x in RE_STEP.findall(out)]
     hwm = max(steps) if steps else 1
     if "Invariant NotDone is violated" in out:
@@ -191,7 +213,133 @@ def validate_file(allev_path, work, par=8):
     return acc, rej, skipped, states
 
 
+def free_sections(path):
+    """Split a `drive m3 -alphabet all` output into runs: [(header, [events])]; the real send-buffer size is
+    in the run's header."""
+    out = []
+    for line in open(path):
+        e = json.loads(line)
+        if e["ev"] == "Prog":
+            out.append((e, []))
+        elif out:
+            if e["ev"] == "EnvInfo":
+                e = dict(e, sendbuf=out[-1][0].get("sendbuf", 0))
+            out[-1][1].append(e)
+    return out
+
+
+def validate_free(path, work, par=8):
+    """Validate every node's transport trace of every run of a free workload.
+    Returns (accepted, rejected [(header, line, reason, lines)], skipped, states, events)."""
+    jobs, skipped = [], []
+    for i, (hdr, events) in enumerate(free_sections(path)):
+        info = next((e for e in events if e["ev"] == "EnvInfo"), {})
+        for node in range(1, int(info.get("nodes", 1)) + 1):
+            lines, why = project(events, node)
+            if lines is None:
+                if why != "no request":
+                    skipped.append((hdr, "node %d: %s" % (node, why)))
+                continue
+            jobs.append((i * 10 + node, dict(hdr, name="free-%s" % hdr.get("t"), kind="m3", node=node), lines))
+    acc, rej, states, nev = 0, [], 0, 0
+
+    def one(j):
+        i, hdr, lines = j
+        ok, line, gen, why = validate_one(lines, work, "f%d" % i, timeout=150, undecided_ok=True)
+        return hdr, lines, ok, line, gen, why
+
+    with ThreadPoolExecutor(max_workers=par) as ex:
+        for hdr, lines, ok, line, gen, why in ex.map(one, jobs):
+            states += gen
+            if ok is None:
+                # the search for a placement of the silent steps did not finish: no verdict for this trace
+                skipped.append((hdr, "node %s: %s" % (hdr.get("node"), why)))
+                continue
+            nev += len(lines)
+            if ok:
+                acc += 1
+            else:
+                rej.append((hdr, line, why, lines))
+    return acc, rej, skipped, states, nev
+
+
+def free_check(prop, work, seed, runs, faults, cancel="any", goroutines=4, calls=8, name="m3t"):
+    """Free workloads (nothing scheduled) recorded with every event; each node's transport trace of each run is
+    validated against Channel.tla action by action.  A free run cannot be repeated exactly, so a rejection counts
+    only if a rejection of the same event kind shows up again in one of two further batches (other seeds);
+    otherwise it is reported as unconfirmed.  Returns (accepted, confirmed [(hdr, line, why, lines)], unconfirmed,
+    states, events, calls)."""
+    def batch(sd, n, tag):
+        out = os.path.join(work, "%s-%s.ndjson" % (name, tag))
+        st = os.path.join(work, "%s-%s.json" % (name, tag))
+        cmd = [os.path.join(BUILD, "drive"), "m3", "-out", out, "-stats", st, "-seed", str(sd), "-runs", str(n),
+               "-goroutines", str(goroutines), "-calls", str(calls), "-cancel", cancel, "-alphabet", "all"]
+        if faults:
+            cmd.append("-faults")
+        p = run(cmd, timeout=3000, check=False)
+        if p.returncode != 0:
+            raise Infra("m3 driver failed:\n" + p.stdout[-3000:])
+        r = validate_free(out, work, par=12)
+        os.remove(out)
+        return r + (json.load(open(st))["calls"],)
+
+    def kind(why):
+        m = re.search(r'"ev": "(\w+)"', why)
+        return m.group(1) if m else why[:40]
+
+    acc, rej, skipped, states, nev, ncalls = batch(seed, runs, "a")
+    confirmed, unconfirmed = [], 0
+    if rej:
+        again = []
+        for i in (1, 2):
+            again += batch(seed + 1000 * i, max(runs, 6), "r%d" % i)[1]
+        kinds = {kind(w) for _, _, w, _ in again}
+        for r in rej:
+            if kind(r[2]) in kinds:
+                confirmed.append(r)
+            else:
+                unconfirmed += 1
+                log("UNCONFIRMED (not a verdict): transport-level rejection in a free workload (run %s node %s line %d: %s) "
+                    "did not show up again" % (r[0].get("t"), r[0].get("node"), r[1], r[2]))
+    log("transport level, free workloads%s: %d node traces (%d events, %d calls) accepted, %d rejected (%d confirmed)" %
+        (" with faults" if faults else "", acc, nev, ncalls, len(rej), len(confirmed)))
+    return acc, confirmed, unconfirmed, states, nev, ncalls
+
+
+def main_free(argv):
+    """python3 tools/check_chan.py free <seed> <runs> [drive m3 flags...]"""
+    seed, runs = argv[0], argv[1]
+    build()
+    work = scratch("chanfree")
+    try:
+        t0 = time.time()
+        out = os.path.join(work, "m3.ndjson")
+        cmd = [os.path.join(BUILD, "drive"), "m3", "-out", out, "-stats", os.path.join(work, "st.json"), "-seed", seed, "-runs", runs,
+               "-alphabet", "all"] + argv[2:]
+        p = run(cmd, timeout=3000, check=False)
+        if p.returncode != 0:
+            raise Infra("driver failed:\n" + p.stdout[-2000:])
+        acc, rej, skipped, states, nev = validate_free(out, work, par=12)
+        log("free workloads: %d node traces accepted, %d rejected, %d skipped, %d events, %d states, %.1fs" %
+            (acc, len(rej), len(skipped), nev, states, time.time() - t0))
+        for hdr, line, why, lines in rej[:10]:
+            log("REJECTED run %s node %s at line %d: %s" % (hdr.get("t"), hdr.get("node"), line, why))
+            if os.environ.get("VERIF_KEEP"):
+                keep = "/tmp/chanfree-s%s-r%s-n%s.ndjson" % (seed, hdr.get("t"), hdr.get("node"))
+                with open(keep, "w") as f:
+                    for x in lines:
+                        f.write(json.dumps(x) + "\n")
+                log("  kept " + keep)
+        if os.environ.get("VERIF_KEEP") and rej:
+            shutil.copy(out, "/tmp/chanfree-s%s.raw.ndjson" % seed)
+        return 1 if rej else 0
+    finally:
+        shutil.rmtree(work, ignore_errors=True)
+
+
 def main():
+    if sys.argv[1] == "free":
+        return main_free(sys.argv[2:])
     prop = sys.argv[1]
     only = sys.argv[2] if len(sys.argv) > 2 else None
     build()
